@@ -4,6 +4,8 @@ mod dag;
 mod refeval;
 mod c01;
 mod c04;
+mod c10;
+mod c20;
 
 fn main() {
     // silence panic messages from catch_unwind'ed implementation panics
@@ -17,6 +19,8 @@ fn main() {
         .unwrap_or_else(|| vec![1, 2, 3, 4, 6, 255]);
     let rc = match cmd {
         "c01" => c01::run(seed, count, &outdir, &budgets).unwrap(),
+        "c10" => c10::run(seed, count, &outdir).unwrap(),
+        "c20" => c20::run(seed, count, &outdir).unwrap(),
         "c04" => c04::run(seed, count, &outdir, args.get(5).map(|s| s == "jit").unwrap_or(false)).unwrap(),
         _ => { eprintln!("usage: fv <cmd> <seed> <count> <outdir> [budgets]"); 2 }
     };
